@@ -32,4 +32,7 @@ for d in sorted(glob.glob('/verif/seeded/' + pat)):
     what = (m.get('needs_to_manifest') or '').strip().splitlines()
     what = [l for l in what if l.strip() and not l.startswith('```')]
     w = re.sub(r'[|]', '/', what[0].lstrip('# ').strip())[:150] if what else ''
-    print("| %s | %s | %s | %s | %s |" % (name, st(first), st(det), " ".join(caught), w))
+    now = st(det)
+    if m.get('detection_note') and own not in caught:
+        now = "not caught (see note)"
+    print("| %s | %s | %s | %s | %s |" % (name, st(first), now, " ".join(caught), w + ((" **Note:** " + m['detection_note']) if m.get('detection_note') else "")))
